@@ -386,7 +386,7 @@ fn run_case(c: &SpawnCase, root: &std::path::Path, rep: &mut CaseReport) -> Resu
         }
     };
 
-    let outcome = (|| -> Result<(), Failure> {
+    let mut judge = |result: Result<tiny_std::process::Child, tiny_std::Error>, rep: &mut CaseReport| -> Result<(), Failure> {
         match (result, &expect_err) {
             (Ok(mut child), None) => {
                 // interact with pipes first so the helper can finish
@@ -532,7 +532,26 @@ fn run_case(c: &SpawnCase, root: &std::path::Path, rep: &mut CaseReport) -> Resu
                 Err(Failure::new("spawn|spurious failure", format!("every step can succeed but spawn returned {e}")))
             }
         }
-    })();
+    };
+    let first_ok = result.is_ok();
+    let mut outcome = judge(result, rep);
+    // a Command is reusable: a second spawn of the same value must behave exactly like the first
+    // (not with RawFd streams: spawn closes those descriptors; not under fault plans, which are spent)
+    if outcome.is_ok() && first_ok && expect_err.is_none() && c.fault == Fault::None && !c.stdio.contains(&4) {
+        let _ = std::fs::remove_file(&dump_path);
+        let again = no_panic("Command::spawn (second spawn of the same Command)", || cmd.spawn());
+        if unsafe { libc::getpid() } != parent_pid {
+            unsafe {
+                libc::write(mp[1], b"X".as_ptr().cast(), 1);
+                libc::_exit(0);
+            }
+        }
+        outcome = match again {
+            Ok(r) => judge(r, rep).map_err(|f| Failure::new(format!("{} (second spawn of the same Command)", f.sig), f.what)),
+            Err(f) => Err(f),
+        };
+        rep.class("command-reused");
+    }
 
     // restore the caller's own standard descriptors (the Child value and its pipes are gone by now)
     for i in 0..3 {
